@@ -198,6 +198,50 @@ func runC10(c *Ctx) {
 		}
 	})
 	c.Floor("C10.B6-buffers-filled-whole", 1)
+	// … and on the way out everything reaches the writer the encoder was given: it writes to that writer directly,
+	// or, if it puts a buffering layer in between, flushes it before every successful return
+	{
+		var wraps []*ssa.Call
+		instrs(enc.SSA, func(in ssa.Instruction) {
+			if ci, ok := in.(*ssa.Call); ok {
+				if x := c.CallX(ci); x.Op == "call" && (nameMatches(x.Name, "bufio.NewWriter") || nameMatches(x.Name, "bufio.NewWriterSize")) {
+					wraps = append(wraps, ci)
+				}
+			}
+		})
+		if len(wraps) == 0 {
+			c.OK("C10.B6-written-through", enc.Name+" › writes to the writer it is given", enc.SSA.Pos(), "no buffering layer between the encoder and its writer")
+		}
+		for _, wcall := range wraps {
+			unflushed := token.NoPos
+			for _, b := range enc.SSA.Blocks {
+				ret, ok := b.Instrs[len(b.Instrs)-1].(*ssa.Return)
+				if !ok || len(ret.Results) == 0 || !ReachableFrom(wcall.Block())[b] {
+					continue
+				}
+				r := c.RetX(ret, len(ret.Results)-1)
+				if _, isFlush := Match(AnyCall("bufio.Writer).Flush"), r); isFlush {
+					continue
+				}
+				if r.Op != "nil" {
+					continue // a failure: nothing promised about what was written
+				}
+				flushed := false
+				instrs(enc.SSA, func(o ssa.Instruction) {
+					if ci, ok := o.(*ssa.Call); ok && Precedes(o, ret) {
+						if x := c.CallX(ci); nameMatches(x.Name, "bufio.Writer).Flush") {
+							flushed = true
+						}
+					}
+				})
+				if !flushed {
+					unflushed = ret.Pos()
+				}
+			}
+			c.Check(!unflushed.IsValid(), "C10.B6-written-through", enc.Name+" › buffered writer flushed before success", wcall.Pos(), "every successful return follows a Flush of the buffering layer", "the encoder reports success at "+c.pos(unflushed)+" without flushing the buffering layer it put in front of its writer: the message (or its tail) never reaches a writer that does not buffer itself")
+		}
+		c.Floor("C10.B6-written-through", 1)
+	}
 
 	// ---- encoder ---------------------------------------------------------------------------------
 	var efs []cborField
